@@ -12,7 +12,7 @@ three SQL fragments of `ViralPropagation/sql.py`; viral attributes carried as na
                               `harness/checks/c28.py`: the engine builds the list without ORDER BY);
 * `clause_passthrough`        clauses, plain assignment and set operators of the core evaluator `evalD` leave the viral
                               column of every datapoint unchanged;
-* `vMapm_viral / vZip_viral / vAggr_viral`  the viral value of every result datapoint of a row-preserving operator / a
+* `rowwise_viral / binary_viral / aggregation_viral`  the viral value of every result datapoint of a row-preserving operator / a
                               dataset ∘ dataset operator / an aggregation is `wide` / `pair` / `group` of the values of the
                               datapoints combined into it;
 * `no_rule_rejected`          a result carrying a viral attribute without a rule is rejected by semantic analysis;
@@ -327,6 +327,57 @@ theorem clause_passthrough (env : Env) (op : PassOp) (v : String) (a b : DExpr) 
       · exact ⟨r', List.mem_append_left _ (List.mem_filter.1 h1).1, rfl, rfl⟩
       · obtain ⟨r0, hr0, rfl⟩ := List.mem_map.1 h1
         exact ⟨r0, List.mem_append_right _ (List.mem_filter.1 hr0).1, get_proj r0 _ v hvc, key_proj r0 _ x.ids hic⟩
+
+/-! ## the rule applied as the propagation model prescribes -/
+
+/-- **Row-preserving dataset-level operators (unary, dataset ∘ scalar)**: every result datapoint comes from the
+operand datapoint with the same identifiers; an enumerated rule maps that datapoint's own viral value, an aggregate
+rule gives every datapoint the aggregate of the operand's WHOLE viral column. -/
+theorem rowwise_viral (s : VSpec) (body : SExpr) (out : Option String) (x res : DS)
+    (h : vMapm s body out x = .ok res) (hn : s.names.Nodup) (p : String × Rule) (hp : p ∈ viralOf s x)
+    (hid : p.1 ∉ x.ids) (hout : p.1 ∉ (plainMeas s x).map (outName (plainMeas s x) out)) :
+    ∀ r' ∈ res.rows, ∃ r ∈ x.rows, r'.key x.ids = r.key x.ids ∧
+      wide p.2 (column x p.1) (r.get p.1) = .ok (r'.get p.1) :=
+  VtlModel.Sem.vMapm_viral s body out x res h hn p hp hid hout
+
+theorem wide_enum (cl : List VClause) (d : Option String) (col : List Value) (v : Value) (hv : textual v = true) :
+    wide (.enum cl d) col v = .ok (enumSingle cl d v) := by simp [wide, hv]
+
+theorem wide_agg (f : AggFn) (col : List Value) (v : Value) : wide (.agg f) col v = group (.agg f) col := rfl
+
+/-- **Dataset ∘ dataset operators**: every result datapoint pairs a datapoint of the left operand with the datapoint
+of the right operand that agrees on the common identifiers; where both operands carry the attribute its value is the
+rule applied to the two values (`pair`), else the one value there is. -/
+theorem binary_viral (s : VSpec) (body : SExpr) (out : Option String) (x y res : DS)
+    (h : vZip s body out x y = .ok res) (hn : s.names.Nodup) (p : String × Rule) (hp : p ∈ eitherViral s x y)
+    (hid : p.1 ∉ res.ids)
+    (hout : p.1 ∉ ((plainMeas s x).filter (plainMeas s y).contains).map
+                     (outName ((plainMeas s x).filter (plainMeas s y).contains) out)) :
+    ∀ r' ∈ res.rows, ∃ l ∈ x.rows, ∃ r ∈ y.rows,
+      (l.key y.ids = r.key y.ids ∨ l.key x.ids = r.key x.ids) ∧ pairVal x y l r p = .ok (r'.get p.1) :=
+  VtlModel.Sem.vZip_viral s body out x y res h hn p hp hid hout
+
+theorem pairVal_both (x y : DS) (l r : Row) (p : String × Rule) (hx : p.1 ∈ x.meas) (hy : p.1 ∈ y.meas) :
+    pairVal x y l r p = pair p.2 (l.get p.1) (r.get p.1) := by
+  simp [pairVal, hx, hy]
+
+/-- **Aggregations**: the viral value of every group is the rule applied to the viral values of exactly the
+datapoints of the group (`group`: native aggregate / left fold in list order). -/
+theorem aggregation_viral (s : VSpec) (spec : AggSpec) (x res : DS) (h : vAggr s spec x = .ok res) (hn : s.names.Nodup)
+    (p : String × Rule) (hp : p ∈ viralOf s x)
+    (hout : ∀ base, aggr spec { x with meas := plainMeas s x } = .ok base → p.1 ∉ base.comps) :
+    ∀ r' ∈ res.rows,
+      group p.2 ((members res.ids x.rows (r'.key res.ids)).map (·.get p.1)) = .ok (r'.get p.1) :=
+  VtlModel.Sem.vAggr_viral s spec x res h hn p hp hout
+
+/-- non-vacuity of the operator theorems: a dataset with a viral attribute under `aggregate max`, multiplied by a
+constant, then aggregated. -/
+def exSpec : VSpec := [("VAt_1", .agg .max)]
+def exDS : DS := DS.mk ["Id_1"] ["Me_1", "VAt_1"]
+  [[("Id_1", .int 1), ("Me_1", .int 10), ("VAt_1", .int 100)], [("Id_1", .int 2), ("Me_1", .int 20), ("VAt_1", .int 200)]]
+example : (vMapm exSpec (.bin .mul .hole (.const (.int 2))) none exDS).map (fun d => d.rows.map (·.get "VAt_1")) =
+    .ok [.int 200, .int 200] := by decide
+example : (vAggr exSpec ⟨.none, .each .sum, none⟩ exDS).map (fun d => d.rows.map (·.get "VAt_1")) = .ok [.int 200] := by decide
 
 /-! ## the operators inside dataset expressions -/
 
